@@ -42,7 +42,7 @@ Proof. vm_compute. reflexivity. Qed.
    value — it neither raises nor runs out of fuel — with fuel len(data) + 3 (one unit per loop iteration / call): work proportional to
    the buffer whatever the bytes, and the result is spelled out (the successive 16- / 8-byte pieces of the announced part). *)
 From Coq Require Import ZArith List.
-From PS Require Import Model.Py Proofs.PyParsers Proofs.PyTotal Gen.Tables Gen.PyFuncs.
+From PS Require Import Model.Py Proofs.PyLemmas Proofs.PyParsers Proofs.PyTotal Gen.Tables Gen.PyFuncs.
 Import ListNotations.
 
 Theorem C11_py_getlbastatus_every_input : forall (data : bytes) f, (length data + 3 <= f)%nat ->
@@ -61,6 +61,12 @@ Theorem C11_py_reportluns_every_input : forall (data : bytes) f, (length data + 
   let announced := py_slice data (Some 8%Z) (Some (Z.of_N (ba_to_int (py_slice data None (Some 4%Z))) + 8)%Z) in
   call_fun all_tables py_program f RL [PBytes data] = Ok (PDict [("luns", PList (rl_entries 0 (chunks (length announced) 8 announced)))]).
 Proof. exact reportluns_total. Qed.
+
+(* READ CAPACITY(10) / (16): no loop at all — one table applied to whatever bytes arrived (short buffers read as zeros) *)
+Theorem C11_py_readcapacity_every_input : forall (data : bytes) f, (1 <= f)%nat ->
+  call_fun all_tables py_program f "scsi_cdb_readcapacity10.ReadCapacity10.unmarshall_datain" [PBytes data] = Ok (PDict (dict_of_decoded (decode_total data T_rc10))) /\
+  call_fun all_tables py_program f "scsi_cdb_readcapacity16.ReadCapacity16.unmarshall_datain" [PBytes data] = Ok (PDict (dict_of_decoded (decode_total data T_rc16))).
+Proof. intros data f Hf. split; [now apply readcapacity10_total|now apply readcapacity16_total]. Qed.
 
 (* in particular: never the exception of a loop that does not end, for any bytes *)
 Theorem C11_py_no_divergence : forall (data : bytes),
